@@ -167,6 +167,10 @@ func (g *relayGen) AllocatePacketConn(conf AllocateListenerConfig) (net.PacketCo
 		return nil, nil, fmt.Errorf("sim: no port")
 	}
 	addr := &net.UDPAddr{IP: g.relayIP(conf.Network), Port: port}
+	// one relayed-address space, as in the model: a port held by a TCP allocation's listener is in use for UDP as well
+	if g.w.net.LookupListener(addr.String()) != nil {
+		return nil, nil, fmt.Errorf("sim: address already in use")
+	}
 	c, err := g.w.net.NewPacketConn(addr)
 	if err != nil {
 		return nil, nil, err
@@ -182,6 +186,9 @@ func (g *relayGen) AllocateListener(conf AllocateListenerConfig) (net.Listener, 
 		return nil, nil, fmt.Errorf("sim: no port")
 	}
 	addr := &net.TCPAddr{IP: g.relayIP(conf.Network), Port: port}
+	if g.w.net.Lookup(addr.String()) != nil {
+		return nil, nil, fmt.Errorf("sim: address already in use")
+	}
 	l, err := g.w.net.NewListener(addr)
 	if err != nil {
 		return nil, nil, err
